@@ -874,10 +874,40 @@ def rule_chain(c: Ctx) -> RuleResult:
     ok = bool(rets) and bool(params)
     cache_locals = {t.id for n in own_nodes(g.node) if isinstance(n, ast.Assign) and _is_self_attr(n.value, CACHE_ATTR)
                     for t in n.targets if isinstance(t, ast.Name)}
+    from ..interproc import expand as _expand_g
+
+    def is_lookup(e: ast.AST, at: ast.AST) -> bool:
+        e = _expand_g(c, g, e, at)
+        uses_cache = any(_is_self_attr(x, CACHE_ATTR) or (isinstance(x, ast.Name) and x.id in cache_locals) for x in ast.walk(e))
+        uses_param = any(isinstance(x, ast.Name) and x.id == params[0] for x in ast.walk(e)) if params else False
+        return uses_cache and uses_param
+    # the lookup written as `rules = cache.get(name)` needs the call-carrying definition too (expand() inlines call-free ones only)
+    look_locals = {t.id for n in own_nodes(g.node) if isinstance(n, ast.Assign) for t in n.targets if isinstance(t, ast.Name)
+                   and sum(1 for m in own_nodes(g.node) if isinstance(m, ast.Name) and m.id == t.id and isinstance(m.ctx, ast.Store)) == 1
+                   and is_lookup(n.value, n)}
+    n_look = 0
     for rt in rets:
-        uses_cache = any(_is_self_attr(x, CACHE_ATTR) or (isinstance(x, ast.Name) and x.id in cache_locals) for x in ast.walk(rt.value))
-        uses_param = any(isinstance(x, ast.Name) and x.id == params[0] for x in ast.walk(rt.value)) if params else False
-        ok = ok and uses_cache and uses_param
+        v = rt.value
+        if is_lookup(v, rt) or (isinstance(v, ast.Name) and v.id in look_locals) or (
+                isinstance(v, ast.BoolOp) and isinstance(v.op, ast.Or) and isinstance(v.values[0], ast.Name) and v.values[0].id in look_locals):
+            n_look += 1
+            continue
+        # `return []` where the lookup gave nothing: in the falsy branch of a test of the lookup value
+        par = g.module.parents.get(rt)
+        empty = (isinstance(v, ast.List) and not v.elts) or (isinstance(v, ast.Call) and U(v.func) == "list" and not v.args)
+        falsy = False
+        if empty and isinstance(par, ast.If):
+            t, neg = par.test, False
+            while isinstance(t, ast.UnaryOp) and isinstance(t.op, ast.Not):
+                t, neg = t.operand, not neg
+            if isinstance(t, ast.Compare) and len(t.ops) == 1 and isinstance(t.ops[0], (ast.Is, ast.IsNot)) and isinstance(t.comparators[0], ast.Constant) \
+                    and t.comparators[0].value is None:
+                neg = neg != isinstance(t.ops[0], ast.Is)
+                t = t.left
+            subj_ok = (isinstance(t, ast.Name) and t.id in look_locals) or is_lookup(t, par)
+            falsy = subj_ok and ((neg and rt in par.body) or (not neg and rt in par.orelse))
+        ok = ok and falsy
+    ok = ok and n_look > 0
     r.add("getRules|lookup", f"markdown_it/ruler.py:{g.node.lineno}", "Ruler.getRules", "return self.__cache__[chainName]-like",
           "discharged" if ok else "violation",
           "the returned chain is the cache entry for the requested chain name" if ok else
